@@ -414,7 +414,11 @@ def val_method(ip, st, recv, name, pos, kws):
         return [(st, NONE)]
     if name == "copy":
         need_dict(ip, st, t, "copy")
-        return [(st, ip.new_cell(st, ValCell(t)))]
+        r = ip.new_cell(st, ValCell(t))
+        if isinstance(recv, Ref) and ip.c is not None and ip.c.ghost.get("dict_objects") and not ip.spec_mode:
+            from . import dictobj      # a shallow copy shares its items with the original
+            dictobj.shared_items(ip, st, r, recv)
+        return [(st, r)]
     if name == "pop" and isinstance(recv, Ref):
         need_dict(ip, st, t, "pop")
         k = ip.key_term(pos[0])
@@ -423,6 +427,9 @@ def val_method(ip, st, recv, name, pos, kws):
         removed = T("(D (store (dm %s) %s none))" % (t.s, k.s), "Val")
         outs = []
         a = st.fork(has, "p.")
+        if not recv.path and ip.c is not None and ip.c.ghost.get("dict_objects") and not ip.spec_mode:
+            from . import dictobj      # the popped item as the OBJECT it is (it lives on after the binding is removed)
+            got = dictobj.child_ref(ip, a, recv, k)
         _dobj_cut(ip, a, recv, k)
         ip.store(a, recv, removed)
         outs.append((a, got))
